@@ -247,3 +247,18 @@ _add("C19", "text", "Declining also happens from inside run() (NotSupportedDevic
 _add("C11", "text", "Huawei VLANs declared by a bare `vlan N` next to the batch line; Cisco trunk lists written as `none`.")
 _add("C16", "technique", "; design-level model of the two compositions (MC_FrontEnds) with a regression instance")
 _add("C16", "text", "MC_FrontEnds: over every diff level of up to five entries with a patch logic that looks at the whole group of its key, grouping the complete diff (both front ends) agrees; stripping before grouping (the composition before repair 28efb2a) violates Agree.")
+# ---- round 6
+_add("C02", "text", "Every third main-tier run passes an all-covering filter ACL (--filter-acl) to _diff_and_patch: it can only narrow the patch.")
+_add("C04", "text", "Rows of nokia trees may hold `##` words (Nokia's remark characters) inside the row.")
+_add("C06", "text", "Every other merged ACL is built by annet's own merger (RunGeneratorResult.acl_text()) from texts with different margins.")
+_add("C07", "text", "Exception lines of filter ACLs (`!row`, compiled with allow_ignore) are judged like every other pattern.")
+_add("C08", "text", "A plain ordering rule written in the negated form (`<Prefix> nx ~`) ranks its line directly and the removal through the reverse form.")
+_add("C09", "text", "Targeted cases: a context-bound deploy rule followed by a plain rule for the same command, the command issued in and outside the context.")
+_add("C10", "text", "Every other multi-line yield has empty lines between its rows.")
+_add("C11", "text", "Every other case goes through the production composition api._diff_and_patch.")
+_add("C15", "text", "Interface mode `lagsub`: a sub-interface on the LAG.")
+_add("C18", "text", "A site plug-in vendor registered for the deepest family of every second synthesised model must win in every registration order.")
+_add("C01", "note", "Known gap: block rules whose header text changes under one key while they have children (outside the device model: block headers are determined by rule and key).")
+_add("C13", "note", "Known gap: --acl-safe together with --filter-acl through annet.gen._old_new_per_device's file branch is not driven.")
+_add("C17", "note", "Known gap: --acl-safe runs (completion of the safe config) are not driven.")
+_add("C03", "note", "Known gap: %multiline rules (a vendor diff logic) are outside the catalogue.")
